@@ -14,10 +14,10 @@ import random
 
 from .. import common, identlib
 from ..gen import cfggen, edits
-from ..translate import hashflags, hashsrc, walksrc
+from ..translate import hashflags, hashsrc, sealsrc, walksrc
 
 PROP = "C14"
-MODULES = ["XpmVerif.Properties.C14", "XpmVerif.Properties.HashSrc", "XpmVerif.Properties.WalkSrc"]
+MODULES = ["XpmVerif.Properties.C14", "XpmVerif.Properties.HashSrc", "XpmVerif.Properties.WalkSrc", "XpmVerif.Properties.C14Src"]
 
 
 def prove(ctx):
@@ -27,6 +27,10 @@ def prove(ctx):
     msgs.append(walksrc.generate(common.REPO, common.LEAN))
     ctx.notes.append(f"translator(walksrc): {msgs[2][1]}")
     ctx.count("translator", "walksrc:" + ("translated" if msgs[2][1].startswith("translated") else "fallback"))
+    # the guards of the mutators (set / set_meta / add_pretasks and their entry points, Sealer, identifier caches) as data
+    msgs.append(sealsrc.generate(common.REPO, common.LEAN))
+    ctx.notes.append(f"translator(sealsrc): {msgs[3][1]}")
+    ctx.count("translator", "sealsrc:" + ("translated" if msgs[3][1].startswith("translated") else "fallback"))
     common.check_proofs(ctx, MODULES, translate_msgs=msgs)
 
 
@@ -72,8 +76,13 @@ def make_case(rng, li, lib):
             if not args:
                 continue
             a = rng.choice(args)
+            if rng.random() < 0.15:  # `del cfg.name` / delattr: no parameter can be deleted, sealed or not
+                ops.append({"op": "del", "n": k, "pyname": a["name"]})
+                expect.append(set(sealed))
+                continue
             v = cfggen.GraphGen(rng, lib, 0, False).gen_val(a["ty"], 3, k)
-            ops.append({"op": "set", "n": k, "pyname": a["name"], "spec": v})
+            # every syntactic way to assign: attribute assignment, `__xpm__.set(name, v)`, augmented assignment (get + set)
+            ops.append({"op": "set", "n": k, "pyname": a["name"], "spec": v, "how": rng.choice(["setattr", "setattr", "xset", "aug"])})
             if k not in sealed:
                 edits.set_value(nd, a["name"], v)
         elif r < 0.87:
@@ -104,7 +113,11 @@ def make_case(rng, li, lib):
                 args = [a for a in cfggen.all_args(lib, nd["cls"]) if a["decl"] in ("param", "meta", "option") and not cfggen.has_cfg(a["ty"])]
                 if args:
                     a = rng.choice(args)
-                    tail.append({"op": "set", "n": k, "pyname": a["name"], "spec": cfggen.GraphGen(rng, lib, 0, False).gen_val(a["ty"], 3, k)})
+                    if rng.random() < 0.25:
+                        tail.append({"op": "del", "n": k, "pyname": a["name"]})
+                    else:
+                        tail.append({"op": "set", "n": k, "pyname": a["name"], "spec": cfggen.GraphGen(rng, lib, 0, False).gen_val(a["ty"], 3, k),
+                                     "how": rng.choice(["setattr", "xset", "aug"])})
             elif r < 0.55:
                 tail.append({"op": "setmeta", "n": k, "b": rng.choice([True, False])})
             elif r < 0.7:
@@ -116,6 +129,13 @@ def make_case(rng, li, lib):
     for o in tail:
         ops.append(o)
         expect.append(set(sealed))
+    if sealed and rng.random() < 0.2:  # last of all (it is not an operation of the model): the internal `__xpm__.set(…, bypass=True)`
+        k = rng.choice(sorted(sealed))
+        args = [a for a in cfggen.all_args(lib, g["nodes"][k]["cls"]) if a["decl"] in ("param", "meta", "option") and not cfggen.has_cfg(a["ty"])]
+        if args:
+            a = rng.choice(args)
+            ops.append({"op": "xbypass", "n": k, "pyname": a["name"], "spec": cfggen.GraphGen(rng, lib, 0, False).gen_val(a["ty"], 3, k)})
+            expect.append(set(sealed))
     steps = [{"do": "build", "graph": g0, "as": "A"}, {"do": "graph", "of": "A"}]
     steps += [{"do": "op", "on": "A", "op": o} for o in ops]
     return {"lib": li, "steps": steps, "graph": g0, "ops": ops, "sealed_before": expect}
@@ -124,7 +144,8 @@ def make_case(rng, li, lib):
 def monitor(ctx, case, rec):
     """implementation only"""
     it = iter(rec["impl"][1:])
-    outs = [({"ok": True} if op["op"] == "failseal" else next(it)) for op in case["ops"]]
+    ex = iter(x["out"] for x in rec.get("extra", []))
+    outs = [(next(ex, {"ok": True}) if op["op"] in ("failseal", "del", "xbypass") else next(it)) for op in case["ops"]]
     ids = {}  # (kind, node) -> identifier recorded while the node was sealed
     for op, out, sealed in zip(case["ops"], outs, case["sealed_before"]):
         k = op["n"]
@@ -139,6 +160,14 @@ def monitor(ctx, case, rec):
             if not frozen and out.get("err") == "sealed":
                 # not a violation of C14 (rejecting more is allowed) but unexpected: the model comparison reports it
                 ctx.count("unexpected", "rejected-unsealed")
+        if op["op"] == "del":
+            ctx.count("del_outcome", ("sealed:" if k in sealed else "unsealed:") + (out.get("exc") or "accepted"))
+            if k in sealed and "err" not in out:
+                ctx.monitor_fail("mutation-accepted-after-seal:del", f"`del` of parameter {op['pyname']} on node {k} accepted although it is reachable from a sealed configuration",
+                                 {"graph": case["graph"], "ops": case["ops"]})
+                return
+        if op["op"] == "xbypass":  # observation: `bypass` is reachable only through the internal `__xpm__` object
+            ctx.count("observation", "__xpm__.set(bypass=True) on a sealed configuration: " + ("rejected" if "err" in out else "accepted"))
         if op["op"] in ("full", "raw") and "id" in out:
             if k in sealed:
                 key = (op["op"], k)
